@@ -68,7 +68,9 @@ def pchip_source_variant():
     for n in ast.walk(fn):
         if isinstance(n, ast.Assign) and len(n.targets) == 1 and isinstance(n.targets[0], ast.Name):
             assigns.setdefault(n.targets[0].id, []).append(ast.unparse(n.value))
-    if assigns.get("mask_same_sign") != ["delta_l * delta_r > 0"]:
+    # the sign test itself is modelled by Model/Pchip.v same_sign_mask (tied bit-exactly by ./check C20); since
+    # /repo 79a08c0 it compares torch.sign values instead of the sign of the product
+    if assigns.get("mask_same_sign") != ["torch.sign(delta_l) * torch.sign(delta_r) > 0"]:
         return False, f"mask_same_sign is {assigns.get('mask_same_sign')}"
     wheres = [ast.unparse(n) for n in ast.walk(fn) if isinstance(n, ast.Call) and ast.unparse(n.func) == "torch.where"]
     final = "torch.where(mask_same_sign, dh, torch.zeros_like(dh))"
